@@ -74,3 +74,12 @@ let () =
       else if sawerr <> "1" && msgs <> "2" then Viol (Printf.sprintf "the transport reported an error once after %s bytes and went on delivering: %s neither reported it nor delivered both messages (%s delivered)" k api msgs)
       else Pass true
     | _ -> Diff "malformed line")
+
+let () =
+  (* C19K: control frames with payloads handled concurrently by sessions of both roles *)
+  register "C19K" (fun i o -> match o with
+    | [wrong; races] ->
+      if int_of_string races > 0 then Viol (Printf.sprintf "the race detector reported %s data race(s) between sessions handling control frames with payloads (or writing client messages) at the same time" races)
+      else if wrong <> "0" then Viol (wrong ^ " control replies were wrong while other sessions handled control frames at the same time")
+      else Pass true
+    | _ -> Diff "malformed line")
